@@ -146,9 +146,23 @@ class Ctx:
                 ok = per_fn.get(fm.get('fn') or name.split('#')[0], False) or not fl
                 self.add(Obligation(self.prop, '%s/%s:body(panic-freedom,callee-preconditions)' % (unit.name, name), 'verus', 'complete',
                                     'discharged' if ok and not fl else ('failed' if not fl else 'discharged'), fn=name, unit=unit))
-        # failures in prelude / spec lemmas (not in any extracted fn)
+        # failures in prelude / spec lemmas (not in any extracted fn): a *property lemma* (states the property over the
+        # contracts / over the spec twin of the real code) that fails is a violation; any other library lemma is a tool problem
+        plem = getattr(unit, 'property_lemmas', {}) or {}
+        failed_lemmas = {}
         for f in failed_by_fn.get(None, []):
-            raise Undecided(unit.name, 'proof-library obligation failed (not about /repo code): %s' % f['msg'])
+            if f.get('lemma') in plem:
+                failed_lemmas.setdefault(f['lemma'], []).append(f)
+            else:
+                raise Undecided(unit.name, 'proof-library obligation failed (not about /repo code): %s [%s]' % (f['msg'], f.get('lemma')))
+        for lname, desc in plem.items():
+            if lname in failed_lemmas:
+                self.add(Obligation(self.prop, '%s/lemma:%s' % (unit.name, lname), 'verus', 'complete', 'failed', unit=unit, fn=lname,
+                                    detail=desc + '\n' + '\n'.join(f['rendered'] for f in failed_lemmas[lname])))
+            elif per_fn.get(lname):
+                self.add(Obligation(self.prop, '%s/lemma:%s' % (unit.name, lname), 'verus', 'complete', 'discharged', unit=unit, fn=lname, detail=desc))
+            else:
+                raise Undecided(unit.name, 'property lemma %s not reported by verus' % lname)
         self.samples += names[:3]
         # --- vacuity: negative control
         if negctl:
